@@ -22,6 +22,7 @@ import (
 	"os"
 	"path/filepath"
 	"strings"
+	"time"
 	"unicode/utf8"
 
 	"verifharness/lib"
@@ -231,6 +232,7 @@ func run(cfg *lib.Config, res *lib.Result, rng *lib.Rng, pool *Pool) {
 			}
 			if f.kind == "parsetype" {
 				em.wantResolve(in, bad && len(em.rbad) < 20)
+				em.wantTypeSet(in, o)
 			}
 			if total%9973 == 1 {
 				res.Sample(map[string]interface{}{"input": in, "observed": o})
@@ -238,7 +240,11 @@ func run(cfg *lib.Config, res *lib.Result, rng *lib.Rng, pool *Pool) {
 		}
 	}
 	for _, f := range fams {
+		t0 := time.Now()
 		runFamily(f)
+		if os.Getenv("C06_TIMING") != "" {
+			fmt.Fprintf(os.Stderr, "family %-28s %-9s %7d inputs %6.1fs timeouts=%d crashes=%d\n", f.name, f.kind, len(f.inputs), time.Since(t0).Seconds(), pool.Timeouts, pool.Crashes)
+		}
 	}
 	// second phase: every type the run created as an argument of other types
 	{
@@ -464,6 +470,12 @@ func families(cfg *lib.Config, rng *lib.Rng) []family {
 			r2 = append(r2, randomTypeExpr(r, 1+r.Intn(3)))
 		}
 		addc("resolve-random2", r2)
+		// user-declared types that refer to each other (gentypeset.go)
+		add("resolve-override", "parsetype", 0, overrideTexts)
+		add("resolve-type-params", "parsetype", 0, typeParamTexts)
+		add("resolve-typeset-pairs", "parsetype", 0, resolveTypeSetPairs())
+		add("resolve-typeset-random", "parsetype", 0, resolveTypeSetRandom(sc(6000, 100000), rng))
+		add("resolve-new-from-hash", "parsetype", 0, resolveNewFromHash(th))
 	}
 	return fams
 }
@@ -495,6 +507,7 @@ func replay(cfg *lib.Config, res *lib.Result, pool *Pool) {
 			fmt.Println("the implementation satisfies the property on this input")
 		}
 		em.want(in)
+		em.wantTypeSet(in, o)
 	}
 	em.emit(cfg, res, pool)
 }
